@@ -1,1 +1,1187 @@
-"""(rules registered here)"""
+"""Handler path rules on the statement CFG: status typestate (S-STATUS), validation dominance (D-VALIDATE),
+who-may-write (W-ATTR), reply discipline (P-REPLYBIT, P-ONE, P-ACT, D-ECHO), bundle rules (P-ORDER, P-EACH, P-CLOSURE),
+containment (E-CONTAIN), route decision table (B-ROUTE, D-REFUSE, C-MAIN), forwards key shape (K-FORWARDS)."""
+import ast, itertools
+
+from .core import ( rule, Result, AnalysisError, dotted, call_name, is_call_to, names_in, attrs_in, walk_no_nested,
+                    norm_text, dotted_in, stmt_of, pmatch, pfind, txt )
+from .fold import fold, try_fold, NoFold
+from .cfg import CFG, INF
+from . import spec
+
+LOGIX = 'server/enip/logix.py'
+DEVICE = 'server/enip/device.py'
+UCMM = 'server/enip/ucmm.py'
+MAIN = 'server/enip/main.py'
+CLIENT = 'server/enip/client.py'
+
+TOP = 'TOP'
+NONZERO = 'NONZERO'
+
+BENIGN_CALLEE_PREFIX = ( 'log.', 'logging.', 'traceback.', 'sys.', 'misc.reprlib.' )
+BENIGN_CALLEES = { 'enip_format', 'parser.enip_format', 'len', 'str', 'repr', 'isinstance', 'dict', 'bytearray', 'bytes', 'list',
+                   'type', 'ord', 'range', 'zip', 'dotdict', 'hasattr', 'int', 'bool', 'tuple', 'set', 'sorted', 'min', 'max' }
+
+
+def status_may_raise( art='data' ):
+    """may-raise predicate of the status discipline: asserts, raises, calls into repo code and subscript loads on objects other
+    than the request artifact; bookkeeping on the artifact itself, logging and plain attribute loads are benign"""
+    def may( node ):
+        if node is None:
+            return False
+        for n in ast.walk( node ):
+            if isinstance( n, ( ast.Assert, ast.Raise )):
+                return True
+            if isinstance( n, ast.Call ):
+                cn = call_name( n )
+                if cn in BENIGN_CALLEES or any( cn.startswith( p ) for p in BENIGN_CALLEE_PREFIX ):
+                    continue
+                if cn in ( art + '.pop', art + '.get', art + '.setdefault' ):
+                    continue
+                if isinstance( n.func, ast.Attribute ) and n.func.attr in ( 'join', 'format' ) and isinstance( n.func.value, ast.Constant ):
+                    continue
+                return True
+            if isinstance( n, ast.Subscript ):
+                base = dotted( n.value ) or ''
+                if base == art or base.startswith( art + '.' ):
+                    continue
+                return True
+            if isinstance( n, ( ast.BinOp, )) and isinstance( n.op, ( ast.Div, ast.FloorDiv, ast.Mod )):
+                return True
+        return False
+    return may
+
+
+def _ext_value( e ):
+    """abstract value of a status_ext assignment: tuple of its data words"""
+    v = try_fold_dict( e )
+    if isinstance( v, dict ) and 'data' in v:
+        try:
+            return tuple( v['data'] )
+        except TypeError:
+            return TOP
+    return TOP
+
+
+def try_fold_dict( e ):
+    if isinstance( e, ast.Dict ):
+        out = {}
+        for k, v in zip( e.keys, e.values ):
+            kk = try_fold( k ) if k is not None else None
+            vv = try_fold( v )
+            if kk is None:
+                return None
+            out[kk] = vv
+        return out
+    return None
+
+
+def _status_values( e, src, stmt ):
+    """abstract value of an expression assigned to <art>.status"""
+    v = try_fold( e, default=NoFold )
+    if v is not NoFold and isinstance( v, int ):
+        return frozenset( [ v ] )
+    if isinstance( e, ast.IfExp ):
+        a, b = _status_values( e.body, src, stmt ), _status_values( e.orelse, src, stmt )
+        if a in ( TOP, NONZERO ) or b in ( TOP, NONZERO ):
+            return TOP
+        return a | b
+    # forced-failure idiom:  if X: <art>.status = X
+    par = src.parent.get( stmt )
+    if isinstance( par, ast.If ) and stmt in par.body and txt( par.test ) == txt( e ):
+        return NONZERO
+    return TOP
+
+
+def status_states( src, fn, art, status_attr='status', ext_attr='status_ext', may_raise=None ):
+    """forward typestate of <art>.status / <art>.status_ext over fn's CFG -> ( cfg, state_in per node, edge_state fn )"""
+    cfg = CFG( fn, may_raise=may_raise or status_may_raise( art ))
+    s_name, e_name = '%s.%s' % ( art, status_attr ), '%s.%s' % ( art, ext_attr )
+
+    def assigned( n ):
+        st = n.stmt
+        if n.kind != 'stmt' or st is None:
+            return {}
+        out = {}
+        if isinstance( st, ast.Assign ):
+            for t in st.targets:
+                d = dotted( t )
+                if d == s_name:
+                    out['status'] = _status_values( st.value, src, st )
+                elif d == e_name:
+                    out['ext'] = frozenset( [ _ext_value( st.value ) ] ) if _ext_value( st.value ) is not TOP else TOP
+                elif isinstance( t, ast.Subscript ) and dotted( t.value ) == art and try_fold( t.slice ) in ( status_attr, ):
+                    out['status'] = _status_values( st.value, src, st )
+        elif isinstance( st, ast.Expr ) and isinstance( st.value, ast.Call ) and call_name( st.value ) == art + '.pop' \
+             and st.value.args and try_fold( st.value.args[0] ) == ext_attr:
+            out['ext'] = frozenset( [ 'absent' ] )
+        return out
+
+    def transfer( n, label, state ):
+        if label == 'exc':
+            return state				# the statement did not complete
+        a = assigned( n )
+        if not a:
+            return state
+        st = dict( state )
+        st.update( a )
+        return tuple( sorted( st.items(), key=lambda kv: kv[0] ))
+
+    def join( a, b ):
+        da, db = dict( a ), dict( b )
+        out = {}
+        for k in ( 'status', 'ext' ):
+            x, y = da.get( k, TOP ), db.get( k, TOP )
+            if x == y:
+                out[k] = x
+            elif TOP in ( x, y ) or NONZERO in ( x, y ):
+                out[k] = TOP if TOP in ( x, y ) or x != y else NONZERO
+            else:
+                out[k] = x | y
+        return tuple( sorted( out.items(), key=lambda kv: kv[0] ))
+
+    init = tuple( sorted( { 'status': TOP, 'ext': TOP }.items() ))
+    state_in = cfg.forward( init, transfer, join )
+    return cfg, { n: dict( s ) for n, s in state_in.items() }
+
+
+def _show( v ):
+    if v in ( TOP, NONZERO ):
+        return v
+    return '{' + ','.join( '0x%02X' % x if isinstance( x, int ) else str( x ) for x in sorted( v, key=str )) + '}'
+
+
+def _request_try( src, fn, art ):
+    """the try statement(s) of a handler that implement the status discipline: handler catches Exception and the body pre-sets <art>.status"""
+    out = []
+    for t in walk_no_nested( fn ):
+        if isinstance( t, ast.Try ) and any( h.type is not None and dotted( h.type ) == 'Exception' for h in t.handlers ):
+            pre = [ s for s in ast.walk( t ) if isinstance( s, ast.Assign ) and any( dotted( x ) == art + '.status' for x in s.targets ) ]
+            if pre:
+                out.append( t )
+    return out
+
+
+HANDLERS = (	# ( file, qualified function, artifact name, success statuses )
+    ( DEVICE, 'Object.request', 'data', ( 0x00, )),
+    ( DEVICE, 'Message_Router.request', 'data', ( 0x00, )),
+    ( LOGIX, 'Logix.request', 'data', ( 0x00, 0x06 )),
+    ( DEVICE, 'Connection_Manager.request', 'data', ( 0x00, )),
+)
+
+
+@rule( 'S-STATUS', props=( 'C05', 'C07', 'C08', 'C15' ), floor=40 )
+def s_status( ctx ):
+    """typestate of data.status: at every statement in a request handler's try that may raise, the status is a non-success constant; the handler converts, never re-raises"""
+    res = Result( 'S-STATUS' )
+    for rel, qn, art, success in HANDLERS:
+        src = ctx.src( rel )
+        fn = src.get( qn )
+        tries = _request_try( src, fn, art )
+        if not tries:
+            res.bad( src, fn, qn, 'no try/except Exception with a pre-set failure status: exceptions of request processing escape instead of becoming an error reply' )
+            continue
+        cfg, st = status_states( src, fn, art )
+        for t in tries:
+            # the dispatch node of this try
+            disp = [ n for n in cfg.nodes if n.kind == 'dispatch' and n.stmt is t ]
+            if not disp:
+                raise AnalysisError( '%s: no dispatch node for the request try' % qn )
+            disp = disp[0]
+            for p, label in cfg.pred[disp]:
+                if label != 'exc' or p not in st:
+                    continue
+                sv = st[p].get( 'status', TOP )
+                what = p.stmt if p.kind == 'stmt' else p.expr
+                if p.kind == 'stmt' and isinstance( p.stmt, ast.Raise ) and sv == NONZERO:
+                    res.ok( src, p.stmt, 'forced-failure idiom: status = configured error, then raise' )
+                    continue
+                if sv in ( TOP, NONZERO ):
+                    res.bad( src, what, what, 'may raise while %s.status is not a known failure constant (%s): the error reply would carry an undefined status' % ( art, sv ), func=qn )
+                elif set( sv ) & set( success ):
+                    res.bad( src, what, what, 'may raise while %s.status can be a success code %s: a failed request would be acknowledged as successful' % ( art, _show( sv )), func=qn )
+                else:
+                    res.ok( src, what, 'may raise with status %s ext %s' % ( _show( sv ), _show( st[p].get( 'ext', TOP ))))
+            # the handler: no re-raise, no reset to success; its sanity assert agrees with the typestate
+            h = [ x for x in t.handlers if x.type is not None and dotted( x.type ) == 'Exception' ][0]
+            hn = [ n for n in cfg.nodes if n.kind == 'handler' and n.stmt is h ]
+            hstate = st.get( hn[0], {} ).get( 'status', TOP ) if hn else TOP
+            bad_h = False
+            for s in ast.walk( h ):
+                if isinstance( s, ast.Raise ):
+                    res.bad( src, s, s, 'the request handler re-raises: the requester gets no error reply', func=qn ); bad_h = True
+                if isinstance( s, ast.Assign ) and any( dotted( x ) == art + '.status' for x in s.targets ):
+                    v = try_fold( s.value )
+                    if v in success:
+                        res.bad( src, s, s, 'exception handler resets the status to success', func=qn ); bad_h = True
+                if isinstance( s, ( ast.Return, )):
+                    res.bad( src, s, s, 'exception handler returns without producing the error reply', func=qn ); bad_h = True
+            if not bad_h:
+                res.ok( src, h, 'handler converts the exception to status %s (no re-raise, no reset)' % _show( hstate ))
+    # ---- Logix named program points: the codes the property states
+    src = ctx.src( LOGIX )
+    fn = src.get( 'Logix.request' )
+    cfg, st = status_states( src, fn, 'data' )
+    def at( node_pred, want_status, want_ext, what ):
+        hits = [ n for n in cfg.nodes if n.kind == 'stmt' and n.stmt is not None and node_pred( n.stmt ) and n in st ]
+        if not hits:
+            raise AnalysisError( 'Logix.request: program point "%s" not found' % what )
+        for n in hits:
+            sv, ev = st[n].get( 'status', TOP ), st[n].get( 'ext', TOP )
+            if sv == frozenset( [ want_status ] ) and ev == frozenset( [ want_ext ] ):
+                res.ok( src, n.stmt, '%s fails with status 0x%02X ext %s' % ( what, want_status, [ hex( x ) for x in want_ext ] ))
+            else:
+                res.bad( src, n.stmt, n.stmt, '%s must fail with status 0x%02X extended %s, but the pre-set status here is %s extended %s' % (
+                    what, want_status, [ '0x%04X' % x for x in want_ext ], _show( sv ), _show( ev )), func='Logix.request' )
+    at( lambda s: any( is_call_to( c, 'resolve', 'lookup' ) for c in ast.walk( s ) if isinstance( c, ast.Call )) and isinstance( s, ast.Assign ),
+        0x05, ( 0x0000, ), 'unknown tag/attribute (resolve/lookup)' )
+    at( lambda s: isinstance( s, ast.Assert ) and isinstance( s.test, ast.Compare ) and isinstance( s.test.ops[0], ast.In )
+        and 'type' in attrs_in( s.test.left ),
+        0xFF, ( 0x2107, ), 'data type mismatch (type-compatibility assert)' )
+    at( lambda s: any( is_call_to( c, 'self.reply_elements' ) for c in ast.walk( s )),
+        0xFF, ( 0x2105, ), 'element range error (reply_elements)' )
+    # ---- the routing branch of Connection_Manager.request re-raises; UCMM.request converts to a non-zero encapsulation status
+    usrc = ctx.src( UCMM )
+    ureq = usrc.get( 'UCMM.request' )
+    outer = [ t for t in ureq.body if isinstance( t, ast.Try ) ]
+    if len( outer ) != 1:
+        raise AnalysisError( 'UCMM.request: expected one top-level try' )
+    h = [ x for x in outer[0].handlers if x.type is not None and dotted( x.type ) in ( 'Exception', 'BaseException' ) ]
+    if not h:
+        res.bad( usrc, outer[0], 'UCMM.request try', 'exceptions of request processing are not caught: the session dies instead of getting a non-zero encapsulation status' )
+    else:
+        h = h[0]
+        conv = [ n for n in ast.walk( h ) if isinstance( n, ast.If ) and
+                 ( pmatch( n.test, "'enip.status' not in data or data.enip.status == 0" )
+                   or pmatch( n.test, "'enip.status' not in data or not data.enip.status" )) ]
+        stores = [ s for s in h.body if isinstance( s, ast.Assign ) and ( txt( s.targets[0] ) in ( "data['enip.status']", 'data.enip.status' )) ]
+        ok = False
+        for c in conv:
+            for s in c.body:
+                if isinstance( s, ast.Assign ) and txt( s.targets[0] ) in ( "data['enip.status']", 'data.enip.status' ):
+                    v = try_fold( s.value )
+                    if isinstance( v, int ) and v != 0:
+                        ok = True
+        for s in stores:
+            v = try_fold( s.value )
+            if isinstance( v, int ) and v != 0:
+                ok = True
+        if any( isinstance( s, ast.Raise ) for s in ast.walk( h )):
+            res.bad( usrc, h, 'UCMM.request handler', 're-raises: an unroutable/unsupported request gets no reply frame' )
+        elif not ok:
+            res.bad( usrc, h, 'UCMM.request handler', 'must store a non-zero enip.status when it is absent or 0' )
+        else:
+            res.ok( usrc, h, 'UCMM.request: any exception -> non-zero enip.status (0x08 unless already set), no re-raise' )
+    return res
+
+
+# ---------------------------------------------------------------------------------------- helpers: local def-use, service feasibility
+
+class LocalDefs:
+    """name -> [ defining expressions ] for the locals of one function (tuple targets map every element to the whole value)"""
+    def __init__( self, fn ):
+        self.defs = {}
+        for s in walk_no_nested( fn ):
+            if isinstance( s, ast.Assign ):
+                for t in s.targets:
+                    self._bind( t, s.value )
+            elif isinstance( s, ast.AugAssign ):
+                self._bind( s.target, s.value )
+            elif isinstance( s, ( ast.For, )):
+                self._bind( s.target, s.iter )
+            elif isinstance( s, ast.With ):
+                for it in s.items:
+                    if it.optional_vars is not None:
+                        self._bind( it.optional_vars, it.context_expr )
+
+    def _bind( self, t, v ):
+        if isinstance( t, ast.Name ):
+            self.defs.setdefault( t.id, [] ).append( v )
+        elif isinstance( t, ( ast.Tuple, ast.List )):
+            for e in t.elts:
+                self._bind( e, v )
+
+    def roots( self, name, seen=None ):
+        """set of defining expressions reachable transitively from name (including through other locals)"""
+        seen = set() if seen is None else seen
+        out = []
+        if name in seen:
+            return out
+        seen.add( name )
+        for v in self.defs.get( name, [] ):
+            out.append( v )
+            for n in names_in( v ):
+                if n in self.defs and n != name:
+                    out += self.roots( n, seen )
+        return out
+
+    def depends( self, expr, pred ):
+        """some defining expression reachable from the names in expr (or expr itself) satisfies pred"""
+        if pred( expr ):
+            return True
+        for n in names_in( expr ):
+            for r in self.roots( n ):
+                if pred( r ):
+                    return True
+        return False
+
+    def direct( self, name, pred ):
+        return any( pred( v ) for v in self.defs.get( name, [] ))
+
+
+def class_consts_env( ctx, cname, service_value=None, art='data' ):
+    """env for fold(): self.X / cls.X -> class constant of cname (through the MRO); <art>.service -> service_value"""
+    from .grammar import grammar_of
+    g = grammar_of( ctx )
+    def env( d ):
+        if d == art + '.service' and service_value is not None:
+            return service_value
+        if d.startswith( 'self.' ) or d.startswith( 'cls.' ):
+            v = g.class_const( cname, d.split( '.', 1 )[1], default=NoFold )
+            return v
+        if '.' in d:
+            c, a = d.rsplit( '.', 1 )
+            if c in g.classes:
+                return g.class_const( c, a, default=NoFold )
+        return NoFold
+    return env
+
+
+def feasible_services( ctx, cfg, cname, target, candidates, art='data' ):
+    """service values for which `target` is reachable, deciding every If test that folds once <art>.service is fixed"""
+    feas = []
+    tests = [ n for n in cfg.nodes if n.kind == 'test' ]
+    for v in candidates:
+        env = class_consts_env( ctx, cname, v, art )
+        fixed = {}
+        for t in tests:
+            if ( art + '.service' ) not in dotted_in( t.expr ):
+                continue
+            # only the part of a test that depends on the service alone can be decided; `a or b` with unknown b stays open
+            try:
+                fixed[t] = bool( fold( t.expr, env ))
+            except NoFold:
+                r = _partial( t.expr, env )
+                if r is not None:
+                    fixed[t] = r
+        def edge_ok( n, m, label ):
+            if n in fixed and label in ( 'true', 'false' ):
+                return ( label == 'true' ) == fixed[n]
+            return True
+        if target in cfg.reachable( cfg.entry, edge_ok=edge_ok ):
+            feas.append( v )
+    return feas
+
+
+def _partial( e, env ):
+    """three-valued evaluation of and/or with unknown operands: True/False when decided, else None"""
+    if isinstance( e, ast.BoolOp ):
+        vals = [ _partial( x, env ) for x in e.values ]
+        if isinstance( e.op, ast.Or ):
+            if any( v is True for v in vals ): return True
+            if all( v is False for v in vals ): return False
+            return None
+        if any( v is False for v in vals ): return False
+        if all( v is True for v in vals ): return True
+        return None
+    if isinstance( e, ast.UnaryOp ) and isinstance( e.op, ast.Not ):
+        v = _partial( e.operand, env )
+        return None if v is None else not v
+    try:
+        return bool( fold( e, env ))
+    except NoFold:
+        return None
+
+
+def is_attribute_receiver( expr, ld ):
+    """expr denotes an Attribute object: bound from lookup( ... ) or self.attribute[ ... ] (directly or via a local)"""
+    def base_pred( v ):
+        if is_call_to( v, 'lookup', 'device.lookup' ):
+            return True
+        if isinstance( v, ast.Subscript ) and ( dotted( v.value ) or '' ).endswith( '.attribute' ):
+            return True
+        return False
+    if base_pred( expr ):
+        return True
+    if isinstance( expr, ast.Name ):
+        return ld.direct( expr.id, base_pred ) or any( isinstance( v, ast.Name ) and is_attribute_receiver( v, ld ) for v in ld.defs.get( expr.id, [] ) if v is not expr )
+    return False
+
+
+MUTATORS = ( 'append', 'extend', 'insert', 'pop', 'remove', 'clear', 'sort', 'reverse', '__setitem__', '__delitem__', 'update' )
+
+
+def attribute_mutations( fn, ld ):
+    """statements of fn that can mutate an Attribute's storage -> [ ( stmt, description ) ]"""
+    out = []
+    for s in walk_no_nested( fn ):
+        targets = []
+        if isinstance( s, ast.Assign ):
+            targets = s.targets
+        elif isinstance( s, ast.AugAssign ):
+            targets = [ s.target ]
+        elif isinstance( s, ast.Delete ):
+            targets = s.targets
+        for t in targets:
+            for tt in ( t.elts if isinstance( t, ( ast.Tuple, ast.List )) else [ t ] ):
+                if isinstance( tt, ast.Subscript ) and is_attribute_receiver( tt.value, ld ):
+                    out.append(( s, 'element store' ))
+                elif isinstance( tt, ast.Attribute ) and tt.attr in ( 'value', 'default', 'scalar', 'parser' ) and is_attribute_receiver( tt.value, ld ):
+                    out.append(( s, '.%s store' % tt.attr ))
+                elif isinstance( tt, ast.Subscript ) and isinstance( tt.value, ast.Attribute ) and tt.value.attr in ( 'value', 'default' ) \
+                     and is_attribute_receiver( tt.value.value, ld ):
+                    out.append(( s, '.%s element store' % tt.value.attr ))
+        if isinstance( s, ast.Expr ) and isinstance( s.value, ast.Call ) and isinstance( s.value.func, ast.Attribute ) \
+           and s.value.func.attr in MUTATORS:
+            recv = s.value.func.value
+            if is_attribute_receiver( recv, ld ) or ( isinstance( recv, ast.Attribute ) and recv.attr in ( 'value', 'default' )
+                                                     and is_attribute_receiver( recv.value, ld )):
+                out.append(( s, 'mutator call .%s()' % s.value.func.attr ))
+        if isinstance( s, ast.Expr ) and is_call_to( s.value, 'setattr' ) and s.value.args and is_attribute_receiver( s.value.args[0], ld ):
+            out.append(( s, 'setattr' ))
+    return out
+
+
+REQUEST_FUNCS = (	# ( file, qualified function, class whose constants its tests use, write-service constant names )
+    ( DEVICE, 'Object.request', 'Object', ( 'SA_SNG_RPY', )),
+    ( DEVICE, 'Message_Router.request', 'Message_Router', () ),
+    ( DEVICE, 'Connection_Manager.request', 'Connection_Manager', () ),
+    ( DEVICE, 'Connection_Manager.forward_open', 'Connection_Manager', () ),
+    ( DEVICE, 'Connection_Manager.forward_close', 'Connection_Manager', () ),
+    ( LOGIX, 'Logix.request', 'Logix', ( 'WR_TAG_RPY', 'WR_FRG_RPY' )),
+    ( LOGIX, 'Logix.reply_elements', 'Logix', () ),
+    ( LOGIX, 'process', None, () ),
+    ( UCMM, 'UCMM.request', None, () ),
+    ( UCMM, 'UCMM.list_identity', None, () ),
+    ( UCMM, 'UCMM.list_services', None, () ),
+    ( UCMM, 'UCMM.list_interfaces', None, () ),
+    ( UCMM, 'UCMM.legacy', None, () ),
+)
+
+
+def _service_candidates( ctx, cname ):
+    """all *_REQ / *_RPY constants of the class plus the bit-flipped forms"""
+    from .grammar import grammar_of
+    g = grammar_of( ctx )
+    vals = {}
+    for c in g.mro( cname ):
+        for s in g.classes[c][0].body:
+            if isinstance( s, ast.Assign ) and isinstance( s.targets[0], ast.Name ) and ( s.targets[0].id.endswith( '_REQ' ) or s.targets[0].id.endswith( '_RPY' )):
+                v = g.class_const( cname, s.targets[0].id )
+                if isinstance( v, int ):
+                    vals[s.targets[0].id] = v
+    return vals
+
+
+@rule( 'W-ATTR', props=( 'C03', 'C05', 'C08' ), floor=13 )
+def w_attr( ctx ):
+    """who may write: every statement of the request-processing functions that can mutate an Attribute is reachable only for write services"""
+    res = Result( 'W-ATTR' )
+    n_mut = 0
+    for rel, qn, cname, wnames in REQUEST_FUNCS:
+        src = ctx.src( rel )
+        fn = src.get( qn, required=( qn in ( 'Object.request', 'Logix.request', 'Message_Router.request', 'Connection_Manager.request', 'UCMM.request' )))
+        if fn is None:
+            continue
+        ld = LocalDefs( fn )
+        muts = attribute_mutations( fn, ld )
+        if not muts:
+            res.ok( src, fn, '%s: no statement mutates an Attribute' % qn, nontrivial=False )
+            continue
+        if cname is None or not wnames:
+            for s, what in muts:
+                res.bad( src, s, s, '%s of a tag outside the write services (this function handles no write service)' % what, func=qn )
+            continue
+        consts = _service_candidates( ctx, cname )
+        cfg = CFG( fn )
+        cand = sorted( set( consts.values() ) | { 0x7F, 0xFF } )
+        wvals = { consts[w] for w in wnames if w in consts }
+        if len( wvals ) != len( wnames ):
+            raise AnalysisError( '%s: write service constants %s not all found' % ( qn, wnames ))
+        for s, what in muts:
+            n_mut += 1
+            node = cfg.node_of( s )
+            if node is None:
+                raise AnalysisError( '%s: mutation statement not in CFG' % qn )
+            feas = feasible_services( ctx, cfg, cname, node, cand )
+            extra = [ v for v in feas if v not in wvals ]
+            if extra:
+                names = [ k for k, v in consts.items() if v in extra ] or [ hex( v ) for v in extra ]
+                res.bad( src, s, s, '%s is reachable for non-write service(s) %s: a read or unrecognised request can change a tag' % ( what, names ), func=qn )
+            elif not feas:
+                res.bad( src, s, s, '%s is unreachable for every service (write services can no longer store)' % what, func=qn )
+            else:
+                res.ok( src, s, '%s reachable only for %s' % ( what, [ k for k, v in consts.items() if v in feas ] ))
+    if n_mut < 2:
+        raise AnalysisError( 'W-ATTR: expected the two tag stores (Logix write, Set Attribute Single), found %d' % n_mut )
+    # Attribute's own methods: only __setitem__ and the value setter store
+    src = ctx.src( DEVICE )
+    cd = src.get( 'Attribute' )
+    for m in cd.body:
+        if isinstance( m, ast.FunctionDef ) and m.name not in ( '__init__', '__setitem__', 'value' ):
+            stores = [ s for s in walk_no_nested( m ) if isinstance( s, ( ast.Assign, ast.AugAssign ))
+                       and any( isinstance( y, ( ast.Attribute, ast.Subscript )) and isinstance( y.ctx, ast.Store ) and ( dotted( y if isinstance( y, ast.Attribute ) else y.value ) or '' ).startswith( 'self' )
+                                for t in ( s.targets if isinstance( s, ast.Assign ) else [ s.target ] ) for y in ast.walk( t )) ]
+            if stores:
+                res.bad( src, stores[0], stores[0], 'Attribute.%s mutates the tag: reading must not write' % m.name )
+            else:
+                res.ok( src, m, 'Attribute.%s does not store' % m.name, nontrivial=False )
+    return res
+
+
+@rule( 'D-VALIDATE', props=( 'C05', 'C08' ), floor=8 )
+def d_validate( ctx ):
+    """validation dominates the store: type assert + reply_elements before the Logix slice store; the four range guards exist; byte-count assert before Set Attribute Single"""
+    res = Result( 'D-VALIDATE' )
+    src = ctx.src( LOGIX )
+    fn = src.get( 'Logix.request' )
+    ld = LocalDefs( fn )
+    cfg = CFG( fn )
+    stores = [ s for s, what in attribute_mutations( fn, ld ) ]
+    if not stores:
+        raise AnalysisError( 'Logix.request: tag store not found' )
+    type_asserts = [ n for n in cfg.nodes if n.kind == 'stmt' and isinstance( n.stmt, ast.Assert ) and isinstance( n.stmt.test, ast.Compare )
+                     and isinstance( n.stmt.test.ops[0], ast.In ) and 'type' in attrs_in( n.stmt.test.left ) ]
+    range_calls = [ n for n in cfg.nodes if n.kind == 'stmt' and n.stmt is not None and any( is_call_to( c, 'self.reply_elements' ) for c in ast.walk( n.stmt )) ]
+    for s in stores:
+        node = cfg.node_of( s )
+        if not type_asserts:
+            res.bad( src, s, s, 'no type-compatibility assert exists before the tag store' )
+        elif cfg.must_pass( cfg.entry, node, type_asserts ):
+            res.ok( src, s, 'type-compatibility assert dominates the store' )
+        else:
+            res.bad( src, s, s, 'a path reaches the tag store without passing the type-compatibility assert' )
+        if not range_calls:
+            res.bad( src, s, s, 'reply_elements (range validation) is not called before the tag store' )
+        elif cfg.must_pass( cfg.entry, node, range_calls ):
+            res.ok( src, s, 'reply_elements call dominates the store' )
+        else:
+            res.bad( src, s, s, 'a path reaches the tag store without passing reply_elements' )
+        # the stored slice bounds must be the ones reply_elements returned
+        if isinstance( s, ast.Assign ) and isinstance( s.targets[0], ast.Subscript ) and isinstance( s.targets[0].slice, ast.Slice ):
+            sl = s.targets[0].slice
+            lo, hi = dotted( sl.lower ) if sl.lower is not None else None, dotted( sl.upper ) if sl.upper is not None else None
+            bound = None
+            for n in range_calls:
+                if isinstance( n.stmt, ast.Assign ) and isinstance( n.stmt.targets[0], ast.Tuple ):
+                    names = [ dotted( e ) for e in n.stmt.targets[0].elts ]
+                    bound = names[:2]
+            if bound and [ lo, hi ] == bound and sl.step is None:
+                res.ok( src, s, 'store slice [%s:%s] = the validated ( beg, end )' % ( lo, hi ))
+            else:
+                res.bad( src, s, s, 'the stored slice is not the validated (beg, end) pair returned by reply_elements' )
+    # ---- the range guards inside reply_elements
+    re_fn = src.get( 'Logix.reply_elements' )
+    rld = LocalDefs( re_fn )
+    params = [ a.arg for a in re_fn.args.args ]
+    attr_p, data_p = params[1], params[2]
+    is_cnt = lambda v: is_call_to( v, 'len' ) and v.args and dotted( v.args[0] ) == attr_p
+    is_idx = lambda v: is_call_to( v, 'resolve_element' ) or ( isinstance( v, ast.Subscript ) and isinstance( v.value, ast.Name )
+                                                              and rld.direct( v.value.id, lambda w: is_call_to( w, 'resolve_element' )))
+    is_elm = lambda v: isinstance( v, ast.Call ) and isinstance( v.func, ast.Attribute ) and v.func.attr == 'get' and v.args and try_fold( v.args[0] ) == 'elements'
+    is_wlen = lambda v: is_call_to( v, 'len' ) and v.args and isinstance( v.args[0], ast.Attribute ) and v.args[0].attr == 'data' \
+        and data_p in names_in( v.args[0] )
+    cnt_vars = { n for n in rld.defs if rld.direct( n, is_cnt ) }
+    elm_vars = { n for n in rld.defs if rld.direct( n, is_elm ) }
+    ret = [ s for s in re_fn.body if isinstance( s, ast.Return ) ]
+    if not ret or not isinstance( ret[-1].value, ast.Tuple ) or len( ret[-1].value.elts ) < 3:
+        raise AnalysisError( 'reply_elements: return tuple not found' )
+    beg_v, end_v, endact_v = [ dotted( e ) for e in ret[-1].value.elts[:3] ]
+    if not cnt_vars or not elm_vars:
+        raise AnalysisError( 'reply_elements: roles cnt=%s elm=%s not found' % ( cnt_vars, elm_vars ))
+    # collect raising comparisons: asserts (and `if not cond: raise`)
+    guards = []
+    for s in walk_no_nested( re_fn ):
+        if isinstance( s, ast.Assert ):
+            guards.append(( s, s.test ))
+    def pairs( test ):
+        """( left, op, right ) triples of every comparison link of an and-ed test"""
+        out = []
+        for c in ( test.values if isinstance( test, ast.BoolOp ) and isinstance( test.op, ast.And ) else [ test ] ):
+            if isinstance( c, ast.Compare ):
+                left = c.left
+                for op, r in zip( c.ops, c.comparators ):
+                    out.append(( left, op, r, c ))
+                    left = r
+        return out
+    found = { 'beg>=0': None, 'beg<cnt': None, 'elm<=cnt': None, 'beg<end': None, 'wend<=endactual': None }
+    wrong = []
+    for s, test in guards:
+        for l, op, r, c in pairs( test ):
+            ld_, rd_ = dotted( l ), dotted( r )
+            # 0 <= beg
+            if try_fold( l ) == 0 and rd_ == beg_v:
+                if isinstance( op, ast.LtE ): found['beg>=0'] = s
+                else: wrong.append(( s, c, 'lower bound of the first element must be 0 <= beg' ))
+            if try_fold( r ) == 0 and ld_ == beg_v and isinstance( op, ast.GtE ):
+                found['beg>=0'] = s
+            # beg < cnt
+            if ld_ == beg_v and rd_ in cnt_vars:
+                if isinstance( op, ast.Lt ): found['beg<cnt'] = s
+                else: wrong.append(( s, c, 'first element must be strictly below the tag length (beg < cnt); %s admits beg == len' % type( op ).__name__ ))
+            if rd_ == beg_v and ld_ in cnt_vars:
+                if isinstance( op, ast.Gt ): found['beg<cnt'] = s
+                else: wrong.append(( s, c, 'first element must be strictly below the tag length' ))
+            # elm <= cnt
+            if ld_ in elm_vars and rd_ in cnt_vars:
+                if isinstance( op, ( ast.LtE, )): found['elm<=cnt'] = s
+                elif isinstance( op, ast.Lt ): wrong.append(( s, c, 'element count equal to the tag length must be accepted (elm <= cnt)' ))
+                else: wrong.append(( s, c, 'element count must be bounded by the tag length (elm <= cnt)' ))
+            # beg < end
+            if ld_ == beg_v and rd_ == end_v:
+                if isinstance( op, ast.Lt ): found['beg<end'] = s
+                else: wrong.append(( s, c, 'an empty or reversed range must be refused (beg < end)' ))
+            # write capacity: X <= endactual where X depends on len( data[context].data )
+            if rd_ == endact_v and isinstance( l, ( ast.Name, ast.BinOp )) and rld.depends( l, is_wlen ):
+                if isinstance( op, ast.LtE ): found['wend<=endactual'] = s
+                else: wrong.append(( s, c, 'written elements must not extend past the requested range (endmax <= endactual)' ))
+    for s, c, why in wrong:
+        res.bad( src, s, c, why, func='Logix.reply_elements' )
+    for k, s in found.items():
+        if s is None:
+            if not any( True for _ in wrong ):
+                res.bad( src, re_fn, 'range obligation %s has no raising guard in reply_elements' % k,
+                         'out-of-range requests would be acknowledged (or tags truncated/extended by the slice store)', func='Logix.reply_elements' )
+            else:
+                res.bad( src, re_fn, 'range obligation %s has no raising guard in reply_elements' % k, 'guard missing or altered', func='Logix.reply_elements' )
+        else:
+            res.ok( src, s, 'guard %s: %s' % ( k, norm_text( s.test )))
+    # endactual must be beg0 + elm (the guard compares against the *requested* extent)
+    if rld.depends( ast.Name( id=endact_v, ctx=ast.Load() ), is_elm ) and rld.depends( ast.Name( id=endact_v, ctx=ast.Load() ), is_idx ):
+        res.ok( src, re_fn, '%s derives from the path index and the requested element count' % endact_v )
+    else:
+        res.bad( src, re_fn, endact_v, 'the requested extent must derive from the path element index and .elements', func='Logix.reply_elements' )
+    # end = min( endactual, endmax )
+    ends = rld.defs.get( end_v, [] )
+    if any( is_call_to( v, 'min' ) and endact_v in [ dotted( a ) for a in v.args ] for v in ends ):
+        res.ok( src, re_fn, '%s = min( %s, ... ): the end can only shrink' % ( end_v, endact_v ))
+    else:
+        res.bad( src, re_fn, '%s' % end_v, 'end must be min( endactual, endmax )', func='Logix.reply_elements' )
+    # ---- Attribute._validate_key: slice store cannot truncate or extend
+    dsrc = ctx.src( DEVICE )
+    vk = dsrc.get( 'Attribute._validate_key' )
+    conds = [ n for n in ast.walk( vk ) if isinstance( n, ast.If ) and isinstance( n.test, ast.BoolOp ) and isinstance( n.test.op, ast.And ) ]
+    good = False
+    for c in conds:
+        t = [ txt( v ) for v in c.test.values ]
+        if 'stride==1' in t and 'start<stop' in t and 'stop<=len(self)' in t and any( x.startswith( 'key.stopin' ) for x in t ):
+            good = True
+            res.ok( dsrc, c, '_validate_key: ' + norm_text( c.test ))
+    if not good:
+        res.bad( dsrc, vk, '_validate_key slice condition', 'slices must be stride 1, non-empty, within len( self ) and not clipped (key.stop in (stop, None))' )
+    si = dsrc.get( 'Attribute.__setitem__' ); gi = dsrc.get( 'Attribute.__getitem__' )
+    for f in ( si, gi ):
+        calls = [ n for n in ast.walk( f ) if is_call_to( n, 'self._validate_key' ) ]
+        c2 = CFG( f )
+        subs = [ n for n in c2.nodes if n.kind == 'stmt' and n.stmt is not None and any(
+            isinstance( y, ast.Subscript ) and txt( y.value ) == 'self.value' for y in ast.walk( n.stmt )) ]
+        vnodes = [ n for n in c2.nodes if n.stmt is not None and ( n.kind in ( 'stmt', 'test' )) and any( is_call_to( y, 'self._validate_key' ) for y in ast.walk( n.expr if n.kind == 'test' else n.stmt )) ]
+        if subs and vnodes and all( c2.must_pass( c2.entry, n, vnodes ) for n in subs ):
+            res.ok( dsrc, f, '%s: _validate_key dominates every access to the underlying list' % f.name )
+        else:
+            res.bad( dsrc, f, f.name, 'key validation must precede every access to the underlying list' )
+    # ---- Object.request: exact byte count before Set Attribute Single store
+    ofn = dsrc.get( 'Object.request' )
+    old = LocalDefs( ofn )
+    ocfg = CFG( ofn )
+    ostores = [ s for s, w in attribute_mutations( ofn, old ) ]
+    cnt_asserts = [ n for n in ocfg.nodes if n.kind == 'stmt' and isinstance( n.stmt, ast.Assert )
+                    and any( isinstance( c, ast.Compare ) and isinstance( c.ops[0], ast.Eq ) and is_call_to( c.left, 'len' )
+                             and 'set_attribute_single' in attrs_in( c.left )
+                             and isinstance( c.comparators[0], ast.BinOp ) and isinstance( c.comparators[0].op, ast.Mult )
+                             for c in ast.walk( n.stmt.test )) ]
+    if not ostores:
+        raise AnalysisError( 'Object.request: Set Attribute Single store not found' )
+    for s in ostores:
+        if not cnt_asserts:
+            res.bad( dsrc, s, s, 'no exact byte-count assert ( len( data ) == size * len( attribute )) precedes the Set Attribute Single store' )
+        elif ocfg.must_pass( ocfg.entry, ocfg.node_of( s ), cnt_asserts ):
+            res.ok( dsrc, s, 'exact byte-count assert dominates the Set Attribute Single store' )
+        else:
+            res.bad( dsrc, s, s, 'a path reaches the Set Attribute Single store without the exact byte-count assert' )
+    return res
+
+
+@rule( 'D-TYPE', props=( 'C03', ), floor=2 )
+def d_type( ctx ):
+    """read replies report the tag's own type: .type / .structure_tag are assigned from attribute.parser, never from request data"""
+    res = Result( 'D-TYPE' )
+    src = ctx.src( LOGIX )
+    fn = src.get( 'Logix.request' )
+    ld = LocalDefs( fn )
+    n = 0
+    for s in walk_no_nested( fn ):
+        if isinstance( s, ast.Assign ):
+            for t in s.targets:
+                if isinstance( t, ast.Attribute ) and t.attr in ( 'type', 'structure_tag' ) and 'data' in names_in( t ):
+                    n += 1
+                    v = s.value
+                    ok = isinstance( v, ast.Attribute ) and isinstance( v.value, ast.Attribute ) and v.value.attr == 'parser' \
+                        and is_attribute_receiver( v.value.value, ld ) \
+                        and (( t.attr == 'type' and v.attr == 'tag_type' ) or ( t.attr == 'structure_tag' and v.attr == 'structure_tag' ))
+                    if ok:
+                        res.ok( src, s, s )
+                    else:
+                        res.bad( src, s, s, 'the reply must report the tag\'s own CIP type (attribute.parser.%s)' % ( 'tag_type' if t.attr == 'type' else 'structure_tag' ))
+    # the .type store must be reachable for (exactly) the read services
+    if n == 0:
+        res.bad( src, fn, 'Logix.request read branch', 'the read reply never reports the tag type' )
+    # read data comes from the attribute slice [beg:end]
+    reads = pfind( fn, '_r = _a[_b:_e]', nested=False )
+    got = [ ( node, m ) for node, m in reads if is_attribute_receiver( m['_a'], ld ) ]
+    if got:
+        node, m = got[0]
+        res.ok( src, node, 'read data = attribute[%s:%s]' % ( txt( m['_b'] ), txt( m['_e'] )))
+    else:
+        res.bad( src, fn, 'Logix.request read branch', 'read data must be the attribute slice [beg:end]' )
+    return res
+
+
+@rule( 'R-SNAPSHOT', props=( 'C03', 'C09' ), floor=4 )
+def r_snapshot( ctx ):
+    """Attribute slice read/write is one list operation (atomic under the GIL); produce iterates a slice copy, never by index"""
+    res = Result( 'R-SNAPSHOT' )
+    src = ctx.src( DEVICE )
+    gi = src.get( 'Attribute.__getitem__' ); si = src.get( 'Attribute.__setitem__' ); pr = src.get( 'Attribute.produce' )
+    for f in ( gi, si ):
+        loops = [ n for n in walk_no_nested( f ) if isinstance( n, ( ast.For, ast.While, ast.ListComp, ast.GeneratorExp )) ]
+        if loops:
+            res.bad( src, loops[0], loops[0], 'element-wise loop in %s: a concurrent reader can observe a half-written range' % f.name )
+        else:
+            res.ok( src, f, '%s: no element-wise loop' % f.name )
+    stores = [ s for s in walk_no_nested( si ) if isinstance( s, ast.Assign ) and any( isinstance( t, ast.Subscript ) and txt( t.value ) == 'self.value' for t in s.targets ) ]
+    if stores and all( txt( s.targets[0].slice ) == 'key' for s in stores ):
+        res.ok( src, si, 'vector store is the single statement self.value[key] = value' )
+    else:
+        res.bad( src, si, '__setitem__', 'vector store must be the single list operation self.value[key] = value' )
+    loads = [ n for n in walk_no_nested( gi ) if isinstance( n, ast.Subscript ) and txt( n.value ) == 'self.value' ]
+    if loads and all( txt( n.slice ) == 'key' for n in loads ):
+        res.ok( src, gi, 'vector load is the single expression self.value[key]' )
+    else:
+        res.bad( src, gi, '__getitem__', 'vector load must be the single list operation self.value[key]' )
+    it = [ n for n in ast.walk( pr ) if isinstance( n, ( ast.GeneratorExp, ast.ListComp )) ]
+    ok = False
+    for gnr in it:
+        for c in gnr.generators:
+            if pmatch( c.iter, 'self[_a:_b]' ):
+                ok = True
+    fors = [ n for n in ast.walk( pr ) if isinstance( n, ast.For ) and pmatch( n.iter, 'self[_a:_b]' ) ]
+    if ok or fors:
+        res.ok( src, pr, 'produce iterates over the slice copy self[start:stop]' )
+    else:
+        res.bad( src, pr, 'Attribute.produce', 'produce must iterate one slice copy self[start:stop], not index element by element' )
+    return res
+
+
+# ---------------------------------------------------------------------------------------- C06: X-SERVICES, P-REPLYBIT, P-ONE, D-ECHO; C02: P-ACT
+
+SERVICE_CLASSES = (( DEVICE, 'Object' ), ( DEVICE, 'Message_Router' ), ( DEVICE, 'Connection_Manager' ), ( LOGIX, 'Logix' ))
+
+
+def _mentioned_consts( ctx, fn, cname ):
+    env = class_consts_env( ctx, cname )
+    out = {}
+    for d in dotted_in( fn ):
+        if ( d.startswith( 'self.' ) or d.startswith( 'cls.' )) and ( d.endswith( '_REQ' ) or d.endswith( '_RPY' )) and d.count( '.' ) == 1:
+            v = env( d )
+            if isinstance( v, int ):
+                out[d.split( '.' )[1]] = v
+    return out
+
+
+@rule( 'X-SERVICES', props=( 'C06', 'C01' ), floor=30 )
+def x_services( ctx ):
+    """exhaustiveness across siblings: registered service parsers = services dispatched by request() = services produce() encodes; *_RPY = *_REQ | 0x80"""
+    from .grammar import grammar_of
+    res = Result( 'X-SERVICES' )
+    g = grammar_of( ctx )
+    for rel, cname in SERVICE_CLASSES:
+        src = ctx.src( rel )
+        cd = src.get( cname )
+        own = {}
+        for s in cd.body:
+            if isinstance( s, ast.Assign ) and isinstance( s.targets[0], ast.Name ) and ( s.targets[0].id.endswith( '_REQ' ) or s.targets[0].id.endswith( '_RPY' )):
+                v = g.class_const( cname, s.targets[0].id )
+                if not isinstance( v, int ):
+                    raise AnalysisError( '%s.%s does not fold' % ( cname, s.targets[0].id ))
+                own[s.targets[0].id] = ( v, s )
+        regs = [ r for r in g.registrations if r['cls'] == cname ]
+        R = { r['number'] for r in regs if isinstance( r['number'], int ) and r['number'] is not True }
+        # 1. reply constants
+        for name, ( v, node ) in sorted( own.items() ):
+            if name.endswith( '_RPY' ):
+                req = own.get( name[:-4] + '_REQ' )
+                if req is None:
+                    raise AnalysisError( '%s.%s has no matching _REQ constant' % ( cname, name ))
+                if v == req[0] | 0x80 and not ( req[0] & 0x80 ):
+                    res.ok( src, node, '%s.%s = 0x%02X = %s | 0x80' % ( cname, name, v, name[:-4] + '_REQ' ))
+                else:
+                    res.bad( src, node, '%s.%s = 0x%02X' % ( cname, name, v ), 'a reply service code must be the request code with bit 0x80 set (0x%02X)' % ( req[0] | 0x80 ))
+        # 2. every declared service has a registered parser
+        for name, ( v, node ) in sorted( own.items() ):
+            if v in R:
+                res.ok( src, node, '%s.%s 0x%02X has a registered parser' % ( cname, name, v ))
+            else:
+                res.bad( src, node, '%s.%s 0x%02X has no register_service_parser' % ( cname, name, v ), 'a message with this service code cannot be parsed' )
+        # 3. every registered parser is dispatched by produce() and (requests) by request()
+        pfn = src.get( cname + '.produce' ); rfn = src.get( cname + '.request' )
+        P = set( _mentioned_consts( ctx, pfn, cname ).values() )
+        Q = set( _mentioned_consts( ctx, rfn, cname ).values() )
+        for r in regs:
+            n = r['number']
+            if n is True or not isinstance( n, int ):
+                continue
+            class L: lineno = r['site'][1]
+            if n not in set( v for v, _ in own.values() ):
+                res.bad( src, L, 'register_service_parser( number=0x%02X, %r )' % ( n, r['name'] ), 'registered code is not one of %s\'s service constants' % cname )
+                continue
+            if n not in P:
+                res.bad( src, L, 'service 0x%02X %r' % ( n, r['name'] ), '%s.produce has no branch for a service it can parse' % cname )
+            elif not ( n & 0x80 ) and n not in Q:
+                res.bad( src, L, 'service 0x%02X %r' % ( n, r['name'] ), '%s.request never tests for a request it can parse: it would be answered as unrecognised' % cname )
+            else:
+                res.ok( src, L, 'service 0x%02X %r: parser, produce%s' % ( n, r['name'], '' if n & 0x80 else ', request' ))
+        # registrations: numbers distinct
+        nums = [ r['number'] for r in regs if r['number'] is not True ]
+        if len( nums ) != len( set( nums )):
+            res.bad( src, cd, 'duplicate register_service_parser numbers %s' % sorted( nums ), 'a later registration replaces an earlier parser' )
+    return res
+
+
+def _produce_stores( cfg, art='data' ):
+    return [ n for n in cfg.nodes if n.kind == 'stmt' and isinstance( n.stmt, ast.Assign ) and dotted( n.stmt.targets[0] ) == art + '.input'
+             and any( is_call_to( c, 'self.produce' ) for c in ast.walk( n.stmt.value )) ]
+
+
+def _replybit_nodes( cfg, art='data' ):
+    return [ n for n in cfg.nodes if n.kind == 'stmt' and isinstance( n.stmt, ast.AugAssign ) and dotted( n.stmt.target ) == art + '.service'
+             and isinstance( n.stmt.op, ast.BitOr ) and try_fold( n.stmt.value ) == 0x80 ]
+
+
+@rule( 'P-REPLYBIT', props=( 'C06', ), floor=12 )
+def p_replybit( ctx ):
+    """the reply bit is set exactly once on every path to the reply producer; every normal exit produces a reply or delegates"""
+    res = Result( 'P-REPLYBIT' )
+    for rel, qn, art, success in HANDLERS:
+        src = ctx.src( rel )
+        fn = src.get( qn )
+        cfg = CFG( fn )
+        stores = _produce_stores( cfg, art )
+        bits = _replybit_nodes( cfg, art )
+        if not stores:
+            res.bad( src, fn, qn, 'no `%s.input = bytearray( self.produce( %s ))`: the handler produces no reply' % ( art, art ))
+            continue
+        if not bits:
+            res.bad( src, fn, qn, 'the reply bit (service |= 0x80) is never set' )
+            continue
+        # other writes to .service (besides |= 0x80 and setdefault in tests) break the echo of the request's service code
+        for n in cfg.nodes:
+            if n.kind == 'stmt' and isinstance( n.stmt, ( ast.Assign, ast.AugAssign )) and n not in bits:
+                tg = n.stmt.targets if isinstance( n.stmt, ast.Assign ) else [ n.stmt.target ]
+                if any( dotted( t ) == art + '.service' for t in tg ):
+                    res.bad( src, n.stmt, n.stmt, 'the reply service code must be the request code with only bit 0x80 added', func=qn )
+        for st in stores:
+            cnt = cfg.effect_counts( cfg.entry, bits, [ st ], cut_back=True )
+            if st not in cnt:
+                raise AnalysisError( '%s: produce store unreachable' % qn )
+            lo, hi = cnt[st]
+            if hi > 1:
+                res.bad( src, st.stmt, 'service |= 0x80 executes %s times on some path' % hi, 'the reply bit must be set exactly once', func=qn )
+            else:
+                res.ok( src, st.stmt, '%s: reply bit set at most once on every path to the producer' % qn )
+            # zero-times paths must go through a raise (unrecognised request)
+            normal = ( 'next', 'true', 'false', 'back', 'break', 'continue', 'return', 'loop-exit' )
+            if st in cfg.reachable( cfg.entry, avoid=set( bits ), labels=normal ):
+                res.bad( src, st.stmt, st.stmt, 'a non-raising path reaches the reply producer without setting the reply bit', func=qn )
+            else:
+                res.ok( src, st.stmt, '%s: every non-raising path to the producer sets the reply bit' % qn )
+        # success assignment implies exactly one reply bit
+        succ = [ n for n in cfg.nodes if n.kind == 'stmt' and isinstance( n.stmt, ast.Assign ) and dotted( n.stmt.targets[0] ) == art + '.status'
+                 and isinstance( _status_values( n.stmt.value, src, n.stmt ), frozenset ) and _status_values( n.stmt.value, src, n.stmt ) & set( success ) ]
+        cnt = cfg.effect_counts( cfg.entry, bits, succ, cut_back=True )
+        for s_ in succ:
+            if s_ in cnt and cnt[s_] == ( 1, 1 ):
+                res.ok( src, s_.stmt, '%s: success status implies reply bit set exactly once' % qn )
+            elif s_ in cnt:
+                res.bad( src, s_.stmt, s_.stmt, 'success is reported on a path that set the reply bit %s..%s times' % cnt[s_], func=qn )
+        # every normal exit: produced a reply, delegated, or the empty-data termination signal
+        for n in cfg.nodes:
+            if n.kind == 'stmt' and isinstance( n.stmt, ast.Return ):
+                v = n.stmt.value
+                if v is not None and isinstance( v, ast.Call ) and isinstance( v.func, ast.Attribute ) and v.func.attr == 'request':
+                    res.ok( src, n.stmt, '%s: delegation %s' % ( qn, norm_text( v )[:60] ), nontrivial=False ); continue
+                par = src.parent.get( n.stmt )
+                if isinstance( par, ast.If ) and pmatch( par.test, 'not ' + art ):
+                    res.ok( src, n.stmt, '%s: empty-request termination signal' % qn, nontrivial=False ); continue
+                deleg = [ m for m in cfg.nodes if m.kind == 'stmt' and isinstance( m.stmt, ast.Expr ) and isinstance( m.stmt.value, ast.Call )
+                          and isinstance( m.stmt.value.func, ast.Attribute ) and m.stmt.value.func.attr == 'request' ]
+                if cfg.must_pass( cfg.entry, n, set( stores ) | set( deleg )):
+                    res.ok( src, n.stmt, '%s: normal exit after producing the reply / delegating' % qn )
+                else:
+                    res.bad( src, n.stmt, n.stmt, 'a normal exit is reachable without producing a reply', func=qn )
+    return res
+
+
+def _loop_nodes( cfg, loop ):
+    """( header node, first body nodes, sources of back/continue edges to the header )"""
+    h = cfg.node_of( loop )
+    first = [ m for m, l in cfg.succ[h] if l == 'true' ]
+    backs = [ p for p, l in cfg.pred[h] if l in ( 'back', 'continue' ) ]
+    return h, first, backs
+
+
+def _inside( src, node, kinds, stop ):
+    for a in src.ancestors( node ):
+        if a is stop:
+            return None
+        if isinstance( a, kinds ):
+            return a
+    return None
+
+
+@rule( 'P-ONE', props=( 'C06', 'C02' ), floor=6 )
+def p_one( ctx ):
+    """server connection loop: per received frame exactly one enip_process, at most one send, send only for a truthy result, strictly sequential"""
+    res = Result( 'P-ONE' )
+    src = ctx.src( MAIN )
+    for qn, send_attr in (( 'enip_srv_tcp', 'send' ), ( 'enip_srv_udp', 'sendto' )):
+        fn = src.get( qn )
+        loops = [ n for n in walk_no_nested( fn ) if isinstance( n, ast.While ) and _inside( src, n, ( ast.While, ast.For ), fn ) is None ]
+        if len( loops ) != 1:
+            raise AnalysisError( '%s: expected one top-level receive loop, found %d' % ( qn, len( loops )))
+        loop = loops[0]
+        cfg = CFG( fn )
+        h, first, backs = _loop_nodes( cfg, loop )
+        proc_param = 'enip_process'
+        acts = [ n for n in cfg.nodes if n.stmt is not None and n.kind in ( 'stmt', 'test' ) and any(
+            is_call_to( c, proc_param ) and any( k.arg == 'data' and dotted( k.value ) == 'data' for k in c.keywords )
+            for c in ast.walk( n.expr if n.kind == 'test' else n.stmt ) if isinstance( c, ast.Call )) ]
+        if not acts:
+            res.bad( src, fn, qn, 'enip_process( addr, data=data ) is never called: requests are not acted upon' )
+            continue
+        for a in acts:
+            # outside the frame-parsing loop (the for over the engine)
+            inner = _inside( src, a.stmt, ( ast.For, ), loop ) or _inside( src, a.stmt, ( ast.While, ), loop )
+            if inner is not None:
+                res.bad( src, a.stmt, 'enip_process call inside `%s`' % norm_text( inner ).split( ':' )[0][:60],
+                         'a request would be acted upon before its frame is complete (per parser step instead of per frame)', func=qn )
+            else:
+                res.ok( src, a.stmt, '%s: enip_process is called after the frame-parsing loop' % qn )
+        if not first or not backs:
+            raise AnalysisError( '%s: loop structure not recognised' % qn )
+        ends = backs
+        cnt = cfg.effect_counts( first[0], acts, ends, cut_back=True, skip_labels=( 'exc', ))
+        if not cnt:
+            raise AnalysisError( '%s: no normal path through the loop body' % qn )
+        for e, ( lo, hi ) in cnt.items():
+            # paths that `continue` early without a frame are only legitimate before any act (none in the repo)
+            if ( lo, hi ) == ( 1, 1 ):
+                res.ok( src, e.stmt or loop, '%s: exactly one enip_process per loop iteration' % qn )
+            else:
+                res.bad( src, e.stmt or loop, 'enip_process executes %s..%s times per iteration' % ( lo, hi ),
+                         'every complete frame must be processed exactly once', func=qn )
+        sends = [ n for n in cfg.nodes if n.kind == 'stmt' and n.stmt is not None and any(
+            isinstance( c, ast.Call ) and isinstance( c.func, ast.Attribute ) and c.func.attr in ( 'send', 'sendto', 'sendall' ) and dotted( c.func.value ) == 'conn'
+            for c in ast.walk( n.stmt )) ]
+        if not sends:
+            res.bad( src, fn, qn, 'no conn.%s: replies are never transmitted' % send_attr )
+            continue
+        cnt = cfg.effect_counts( first[0], sends, ends, cut_back=True )
+        worst = max( hi for lo, hi in cnt.values() ) if cnt else 0
+        if worst > 1:
+            res.bad( src, sends[-1].stmt, 'conn.%s executes up to %s times per iteration' % ( send_attr, worst ), 'at most one reply frame per request frame', func=qn )
+        else:
+            res.ok( src, sends[0].stmt, '%s: at most one conn.%s per iteration' % ( qn, send_attr ))
+        # send is control-dependent on the truthy result of enip_process: every path to the send passes the true edge of `if enip_process(...)`
+        tests = [ a for a in acts if a.kind == 'test' ]
+        for s_ in sends:
+            if tests:
+                true_succ = [ m for t in tests for m, l in cfg.succ[t] if l == 'true' ]
+                if cfg.must_pass( first[0], s_, true_succ, correlated=False ):
+                    res.ok( src, s_.stmt, '%s: reply is sent only when enip_process returned a truthy result' % qn )
+                else:
+                    res.bad( src, s_.stmt, s_.stmt, 'a reply can be sent on a path where enip_process did not report a reply', func=qn )
+            else:
+                res.bad( src, s_.stmt, s_.stmt, 'the send is not conditioned on the result of enip_process', func=qn )
+            # and the payload sent is the encoding of this iteration's response
+            enc = [ n for n in cfg.nodes if n.kind == 'stmt' and isinstance( n.stmt, ast.Assign ) and is_call_to( n.stmt.value, 'parser.enip_encode', 'enip_encode' ) ]
+            if enc and pmatch( enc[0].stmt.value, 'parser.enip_encode( data.response.enip )' ) and cfg.must_pass( first[0], s_, enc, correlated=False ):
+                res.ok( src, s_.stmt, '%s: sent bytes = enip_encode( data.response.enip ) of this iteration' % qn )
+            else:
+                res.bad( src, s_.stmt, s_.stmt, 'the reply sent must be enip_encode( data.response.enip ) computed in the same iteration', func=qn )
+        # strictly sequential: no thread / queue / deferred send in the connection handler
+        for c in ast.walk( fn ):
+            if isinstance( c, ast.Call ) and ( call_name( c ).split( '.' )[-1] in ( 'Thread', 'start_new_thread', 'Queue', 'submit', 'apply_async', 'Process' )):
+                res.bad( src, c, c, 'the connection handler must process frames strictly sequentially', func=qn )
+        # `data` is a fresh artifact per iteration
+        fresh = [ n for n in cfg.nodes if n.kind == 'stmt' and isinstance( n.stmt, ast.Assign ) and dotted( n.stmt.targets[0] ) == 'data' and is_call_to( n.stmt.value, 'dotdict' ) ]
+        if fresh and all( cfg.must_pass( first[0], a, fresh, correlated=False ) for a in acts ):
+            res.ok( src, fresh[0].stmt, '%s: a fresh data artifact per frame' % qn )
+        else:
+            res.bad( src, loop, 'data = dotdict()', 'each frame must be parsed into a fresh artifact (no leakage between requests)', func=qn )
+    return res
+
+
+@rule( 'P-ACT', props=( 'C02', 'C13' ), floor=7 )
+def p_act( ctx ):
+    """a request is acted upon only after its frame is complete: enip_process outside the parse loop; EOF flag; client yields only terminal frames and drops its engine on error"""
+    res = Result( 'P-ACT' )
+    src = ctx.src( MAIN )
+    fn = src.get( 'enip_srv_tcp' )
+    # the only other enip_process call is the empty-data clean-up in an exception handler that re-raises
+    others = [ c for c in ast.walk( fn ) if is_call_to( c, 'enip_process' ) and not any( k.arg == 'data' and dotted( k.value ) == 'data' for k in c.keywords ) ]
+    for c in others:
+        h = _inside( src, c, ( ast.ExceptHandler, ), fn )
+        empty = any( k.arg == 'data' and is_call_to( k.value, 'dotdict' ) and not k.value.args and not k.value.keywords for k in c.keywords )
+        if h is not None and empty and isinstance( h.body[-1], ast.Raise ):
+            res.ok( src, c, 'clean-up call enip_process( addr, data=dotdict() ) in a re-raising handler' )
+        else:
+            res.bad( src, c, c, 'enip_process may only be called with the parsed frame, or with empty data from the failure handler' )
+    # frame complete: the engine loop only `continue`s or receives; nothing in it stores into data or calls the processor
+    loop = [ n for n in ast.walk( fn ) if isinstance( n, ast.For ) and dotted( n.iter ) == 'engine' ]
+    if len( loop ) != 1:
+        raise AnalysisError( 'enip_srv_tcp: frame-parsing loop `for ... in engine` not found' )
+    withs = [ w for w in ast.walk( fn ) if isinstance( w, ast.With ) and any(
+        is_call_to( it.context_expr, 'contextlib.closing' ) and it.context_expr.args and is_call_to( it.context_expr.args[0], 'machine.run' ) for it in w.items ) ]
+    if withs:
+        run = withs[0].items[0].context_expr.args[0]
+        kw = { k.arg: k.value for k in run.keywords }
+        if dotted( kw.get( 'source' )) == 'source' and dotted( kw.get( 'data' )) == 'data':
+            res.ok( src, run, 'frame parsed from the connection source into this iteration\'s data: ' + norm_text( run ))
+        else:
+            res.bad( src, run, run, 'the frame must be parsed from the per-connection source into the per-iteration data' )
+    else:
+        res.bad( src, fn, 'machine.run', 'frame parser is not run under contextlib.closing' )
+    # received blocks are chained, EOF sets the eof flag
+    if pfind( loop[0], 'source.chain( msg )' ):
+        res.ok( src, loop[0], 'each received block is chained to the source' )
+    else:
+        res.bad( src, loop[0], 'recv loop', 'received bytes must be chained to the parser source' )
+    eofs = pfind( loop[0], "stats['eof'] = stats['eof'] or not len( msg )" ) + pfind( loop[0], "stats['eof'] = not len( msg ) or stats['eof']" )
+    if eofs:
+        res.ok( src, eofs[0][0], 'EOF (empty recv) sets stats.eof' )
+    else:
+        res.bad( src, loop[0], 'recv loop', 'an empty recv (EOF) must set stats[\'eof\']' )
+    # ---- client.__next__
+    csrc = ctx.src( CLIENT )
+    nx = csrc.get( 'client.__next__' )
+    cfg = CFG( nx )
+    # result (non-None) only under self.frame.terminal
+    assigns = [ n for n in cfg.nodes if n.kind == 'stmt' and isinstance( n.stmt, ast.Assign ) and dotted( n.stmt.targets[0] ) == 'result'
+                and not ( isinstance( n.stmt.value, ast.Constant ) and n.stmt.value.value is None ) ]
+    term_tests = [ n for n in cfg.nodes if n.kind == 'test' and pmatch( n.expr, 'self.frame.terminal' ) ]
+    if not assigns:
+        res.bad( csrc, nx, 'client.__next__', 'no result is ever produced' )
+    for a in assigns:
+        tsucc = [ m for t in term_tests for m, l in cfg.succ[t] if l == 'true' ]
+        if term_tests and cfg.must_pass( cfg.entry, a, tsucc, correlated=False ):
+            res.ok( csrc, a.stmt, 'client.__next__: a response is returned only when the frame machine is terminal' )
+        else:
+            res.bad( csrc, a.stmt, a.stmt, 'a response can be returned although its frame has not been completely received' )
+    # the frame engine is dropped on every exception of the framing loop
+    tries = [ t for t in walk_no_nested( nx ) if isinstance( t, ast.Try ) and any( isinstance( x, ast.For ) and dotted( x.iter ) == 'self.engine' for x in ast.walk( t )) ]
+    if len( tries ) != 1:
+        raise AnalysisError( 'client.__next__: framing try not found' )
+    hs = [ h for h in tries[0].handlers if h.type is None or dotted( h.type ) in ( 'Exception', 'BaseException' ) ]
+    if hs and pfind( hs[0], 'self.engine = None' ) and isinstance( hs[0].body[-1], ast.Raise ):
+        res.ok( csrc, hs[0], 'client.__next__: on any framing exception the engine is discarded and the exception propagates' )
+    else:
+        res.bad( csrc, tries[0], 'client.__next__ framing try', 'on error the partial frame engine must be discarded (self.engine = None) and the exception re-raised' )
+    # engine reset when a frame completes
+    if term_tests:
+        body = term_tests[0].stmt.body
+        if any( pmatch( s, 'self.engine = None' ) for s in body ):
+            res.ok( csrc, term_tests[0].stmt, 'engine reset after a complete frame' )
+        else:
+            res.bad( csrc, term_tests[0].stmt, 'if self.frame.terminal', 'the engine must be reset when a frame completes' )
+    # EOF between frames ends the iteration; EOF inside a frame does not
+    stop = [ n for n in ast.walk( nx ) if isinstance( n, ast.Raise ) and dotted( n.exc ) == 'StopIteration' ]
+    okstop = stop and all( isinstance( csrc.parent.get( s ), ast.If ) and pmatch( csrc.parent.get( s ).test, 'self.engine is None' ) for s in stop )
+    if okstop:
+        res.ok( csrc, stop[0], 'StopIteration only on EOF between frames (engine is None)' )
+    else:
+        res.bad( csrc, nx, 'StopIteration', 'the response stream may end silently only on EOF between frames' )
+    ex = csrc.get( 'client.__exit__' )
+    asserts = [ a for a in ast.walk( ex ) if isinstance( a, ast.Assert ) and pmatch( a.test, 'self.engine is None' ) ]
+    guarded = [ a for a in asserts if isinstance( csrc.parent.get( a ), ast.If ) and pmatch( csrc.parent.get( a ).test, 'typ is None' ) ]
+    if guarded:
+        res.ok( csrc, guarded[0], 'client.__exit__ refuses to release a client with a partial frame' )
+    else:
+        res.bad( csrc, ex, 'client.__exit__', 'leaving the client without an exception must assert that no partial frame is pending' )
+    return res
+
+
+@rule( 'D-ECHO', props=( 'C06', ), floor=6 )
+def d_echo( ctx ):
+    """the response is a structural copy of the request's encapsulation; nothing on the server side stores to sender_context/command/session_handle (except Register)"""
+    res = Result( 'D-ECHO' )
+    src = ctx.src( LOGIX )
+    fn = src.get( 'process' )
+    if pfind( fn, 'data.response = dotdict( data.request )' ):
+        res.ok( src, fn, 'data.response = dotdict( data.request )' )
+    else:
+        res.bad( src, fn, 'process', 'the response must start as a structural copy of the request' )
+    copy = pfind( fn, 'data.response.enip = dotdict( data.request.enip )' )
+    if copy:
+        res.ok( src, copy[0][0], 'data.response.enip = dotdict( data.request.enip )' )
+    else:
+        res.bad( src, fn, 'process', 'the response encapsulation must be a copy of the request\'s (sender_context, session_handle, command echoed)' )
+    call = pfind( fn, '_p = ucmm.request( data.response, addr=addr )' )
+    rets = [ s for s in ast.walk( fn ) if isinstance( s, ast.Return ) and s.value is not None ]
+    if call and any( dotted( r.value ) == call[0][1]['_p'].id for r in rets if isinstance( call[0][1]['_p'], ast.Name )):
+        res.ok( src, call[0][0], 'process returns what ucmm.request( data.response ) returns' )
+    else:
+        res.bad( src, fn, 'process', 'the request must be processed on the copied response and its proceed flag returned' )
+    # the raw request payload is removed from the response
+    if pfind( fn, "del data.response.enip['input']" ):
+        res.ok( src, fn, "request payload removed from the response ( del data.response.enip['input'] )" )
+    else:
+        res.bad( src, fn, 'process', 'the request payload must be removed from the response so it can never be echoed as the reply' )
+    # zero-count: no store to echoed fields on the server side
+    usrc = ctx.src( UCMM ); dsrc = ctx.src( DEVICE )
+    scanned = 0
+    for s_, fns in (( src, [ 'process' ] ), ( usrc, [ 'UCMM.request', 'UCMM.list_identity', 'UCMM.list_services', 'UCMM.list_interfaces', 'UCMM.legacy' ] ),
+                    ( dsrc, [ 'Connection_Manager.request' ] )):
+        for qn in fns:
+            f = s_.get( qn, required=False )
+            if f is None:
+                continue
+            for st in walk_no_nested( f ):
+                tg = st.targets if isinstance( st, ast.Assign ) else [ st.target ] if isinstance( st, ast.AugAssign ) else st.targets if isinstance( st, ast.Delete ) else []
+                for t in tg:
+                    scanned += 1
+                    tt = txt( t )
+                    if 'sender_context' in tt or tt.endswith( '.command' ) or tt.endswith( "['command']" ) or tt.endswith( '.options' ):
+                        res.bad( s_, st, st, 'the reply must echo the request\'s sender context / command unchanged', func=qn )
+                    if 'session_handle' in tt:
+                        br = _inside( s_, st, ( ast.If, ), f )
+                        if br is not None and "'enip.CIP.register'indata" in txt( br.test ):
+                            res.ok( s_, st, 'session_handle is assigned only in the Register branch' )
+                        else:
+                            res.bad( s_, st, st, 'the session handle may only be assigned by Register Session', func=qn )
+    res.note( 'assignment targets scanned: %d' % scanned )
+    # Register: non-zero handle
+    ur = usrc.get( 'UCMM.request' )
+    wl = [ w for w in ast.walk( ur ) if isinstance( w, ast.While ) and ( pmatch( w.test, 'not session or session in self.__class__.sessions' )
+                                                                         or pmatch( w.test, 'not session or session in self.sessions' )) ]
+    if wl:
+        res.ok( usrc, wl[0], 'Register: the handle is re-drawn while zero or already in use' )
+    else:
+        res.bad( usrc, ur, 'Register branch', 'a new session handle must be re-drawn while it is zero or in use' )
+    # Unregister: proceed = False and no enip.input store in that branch
+    ub = [ i for i in ast.walk( ur ) if isinstance( i, ast.If ) and "'enip.CIP.unregister'indata" in txt( i.test ) ]
+    if not ub:
+        raise AnalysisError( 'UCMM.request: Unregister branch not found' )
+    body = ub[0].body
+    setf = any( pmatch( s, 'proceed = False' ) for s in body )
+    stores_input = any( isinstance( s, ast.Assign ) and 'input' in txt( s.targets[0] ) for b in body for s in ast.walk( b ))
+    if setf and not stores_input:
+        res.ok( usrc, ub[0], 'Unregister: proceed = False, no reply payload' )
+    else:
+        res.bad( usrc, ub[0], 'Unregister branch', 'Unregister Session must return nothing and end the session (proceed = False)' )
+    rets = [ s for s in ur.body if isinstance( s, ast.Return ) ]
+    if rets and dotted( rets[-1].value ) == 'proceed':
+        res.ok( usrc, rets[-1], 'UCMM.request returns proceed' )
+    else:
+        res.bad( usrc, ur, 'UCMM.request return', 'must return the proceed flag' )
+    return res
